@@ -21,7 +21,10 @@ import itertools
 import json
 import pathlib
 import random
+import re
 import shutil
+import signal
+import threading
 from pathlib import Path
 
 import numpy as np
@@ -45,6 +48,72 @@ STEM = "_spikeglx_ephysData_g0_t0.imec0"
 class Injected(Exception):
     """an interruption (a plain Exception: it may be raised inside mtscomp's thread pool, whose workers only hand
     Exception subclasses back to the caller; nothing in the library catches it)"""
+
+
+class LibRaised(Exception):
+    """an exception that escaped a call into the code under test made on behalf of a run outside process() (the constructor,
+    init_params): the run it belongs to ends 'raised' (Outcome), it is never a failure of the harness"""
+
+
+class Runaway(Exception):
+    """process() did not come to an end (more steps than any run of these recordings has / no return within the time limit):
+    raised into the run from an instrumentation point or from the alarm, the run ends 'raised' (Outcome)"""
+
+
+MAXPOINTS = 400         # a run on these recordings (2 windows, 2 shanks) passes < 60 instrumentation points
+MAXREADS = 4000         # ... and reads < 100 row ranges from the original
+RUN_SECONDS = 180       # wall clock limit of one process() call (it takes well under a second)
+RUNAWAYS = {"alarm": 0}
+ODD = set()             # attributes of the converter that could not be read as what the property layer speaks of
+
+
+def lib(what, fn, *a, **k):
+    """a call into the code under test outside process(): whatever escapes it becomes LibRaised"""
+    try:
+        return fn(*a, **k)
+    except Exception as e:  # noqa - the code under test raised; nothing of the harness runs inside fn
+        raise LibRaised(f"{what}: {type(e).__name__}: {_text(e)}"[:200]) from e
+
+
+def _text(x, n=80):
+    try:
+        return str(x)[:n]
+    except Exception:  # noqa
+        return f"<{type(x).__name__}>"
+
+
+def obs_bool(conv, name):
+    """a flag of the converter as a boolean; what cannot be read as one (attribute missing, an array, ...) is the negative
+    observation (and reported once as drift: the implementation layer speaks of an attribute this code does not have)"""
+    try:
+        return bool(getattr(conv, name))
+    except Exception as e:  # noqa
+        ODD.add(f"NP2Converter.{name} cannot be read as a flag ({type(e).__name__})")
+        return False
+
+
+def cdone(conv):
+    return obs_bool(conv, "check_completed")
+
+
+def ap_path(conv, fallback):
+    """the file the object holds (ap_file) as a Path; the file the run handed over if the attribute is no path"""
+    try:
+        return Path(conv.ap_file)
+    except Exception as e:  # noqa
+        ODD.add(f"NP2Converter.ap_file is not a path ({type(e).__name__})")
+        return Path(fallback)
+
+
+def status_of(st):
+    """what process() returned, as the model's status: 1 / 0 / -1 (as any number equal to them), everything else 'other:...'
+    (a plain word: it goes to TLC and into the evidence)"""
+    try:
+        if isinstance(st, (bool, int, float, np.integer, np.floating)) and st in (1, 0, -1):
+            return {1: "1", 0: "0", -1: "m1"}[int(st)]
+    except Exception:  # noqa
+        pass
+    return "other:" + re.sub(r"[^A-Za-z0-9_.+-]", "_", f"{type(st).__name__}_{_text(st, 30)}")[:48]
 
 
 class World:
@@ -81,9 +150,18 @@ class World:
         self.fmeta_text = self.fbin.with_suffix(".meta").read_text()
         if form in ("cbin", "both", "cbinS"):
             import spikeglx
-            sr = spikeglx.Reader(self.binf)
-            sr.compress_file(keep_original=(form == "both"), chunk_duration=0.02)
-            sr.close()
+            try:
+                sr = spikeglx.Reader(self.binf)
+                sr.compress_file(keep_original=(form == "both"), chunk_duration=0.02)
+                sr.close()
+            except Exception as e:  # noqa - preparing the input is not the property: compress with mtscomp itself
+                OBSERVED.add(f"Reader.compress_file could not prepare the compressed original ({type(e).__name__}): mtscomp used directly")
+                for suf in (".cbin", ".ch"):
+                    n2.rm(self.binf.with_suffix(suf))
+                self.binf.write_bytes(self.orig_bytes)
+                self._mtscomp(self.binf, nc=n + 1)
+                if form != "both":
+                    self.binf.unlink()
         if form == "binS":      # a compressed file of the other recording (and its .ch) under this recording's name
             self._mtscomp(self.fbin, nc=n + 1)
             for suf in (".cbin", ".ch"):
@@ -125,11 +203,19 @@ class World:
         except Exception:
             return False
 
+    @staticmethod
+    def _bytes(p):
+        """content of a path that exists (None: it is not a readable file, e.g. a directory)"""
+        try:
+            return Path(p).read_bytes()
+        except OSError:
+            return None
+
     def _complete(self, p, cbin):
         if not p.exists() or not self._meta_ok():
             return False
         if not cbin:
-            return p.read_bytes() == self.orig_bytes
+            return self._bytes(p) == self.orig_bytes
         a = self._load(p, True)
         return a is not None and a.tobytes() == self.orig_bytes
 
@@ -209,7 +295,7 @@ class World:
     def project(self):
         fs = {}
         mok = self._meta_ok()     # the original = its samples and its metadata file (observed: binary and metadata after every step)
-        fs["orig"] = "A" if not self.binf.exists() else "C" if mok and self.binf.read_bytes() == self.orig_bytes else "P"
+        fs["orig"] = "A" if not self.binf.exists() else "C" if mok and self._bytes(self.binf) == self.orig_bytes else "P"
         oc = self.binf.with_suffix(".cbin")
         a = self._load(oc, True) if oc.exists() else None
         fs["origc"] = "A" if not oc.exists() else "C" if mok and a is not None and a.tobytes() == self.orig_bytes else "P"
@@ -265,11 +351,16 @@ class World:
 @contextlib.contextmanager
 def instrumented(world, conv, steps, fail_at):
     import spikeglx
-    state = {"n": 0, "closes": 0, "in_check": False, "verified": False, "in_check_raised": False}
+    state = {"n": 0, "reads": 0, "closes": 0, "in_check": False, "verified": False, "in_check_raised": False}
     conv._verif_state = state
+    the_sr = lambda: getattr(conv, "sr", None)     # noqa: E731 - the attribute may be gone (a run that deleted the original)
 
     def point(label):
-        steps.append({"pt": label, "fs": world.project(), "cd": bool(conv.check_completed), "vr": state["verified"]})
+        if state["n"] >= MAXPOINTS:
+            # far more steps than any run of these recordings has (a window loop that does not end): no further records, the run
+            # is stopped and ends 'raised'
+            raise Runaway(f"process() passed {state['n']} steps (last: {label}) without coming to an end")
+        steps.append({"pt": label, "fs": world.project(), "cd": cdone(conv), "vr": state["verified"]})
         i = state["n"]
         state["n"] += 1
         if fail_at is not None and i == fail_at:
@@ -302,13 +393,17 @@ def instrumented(world, conv, steps, fail_at):
     wrap("_writemetadata_ap", "meta_ap")
     wrap("_writemetadata_lf", "meta_lf")
     wrap("delete_NP24", "delete")
-    orig_check = conv.check_NP24
+    orig_check = getattr(conv, "check_NP24", None)
+    if orig_check is None:
+        # the verification pass is not there under its name: its begin and its end are not observed, `verified` stays false -
+        # a run that removes the original is then judged (DeleteGuard) as one that did not verify
+        UNBOUND.add("NP2Converter.check_NP24")
 
     def w_check(*a, **k):
         if fail_at == "D" and not state.get("damaged"):
             # the other kind of fault (spec Damage): one sample of a shank AP file changes between the conversion and its
             # verification, in the FIRST verification window (the verification has to look at every window)
-            steps.append({"pt": "damage", "fs": world.project(), "cd": bool(conv.check_completed), "vr": state["verified"]})
+            steps.append({"pt": "damage", "fs": world.project(), "cd": cdone(conv), "vr": state["verified"]})
             f = world.paths(max(world.shanks()))["ap"]
             with open(f, "r+b") as fid:
                 fid.seek(7 * 2)
@@ -327,13 +422,14 @@ def instrumented(world, conv, steps, fail_at):
             raise
         finally:
             state["in_check"] = False
-    conv.check_NP24 = w_check
-    wrapped_names.append("check_NP24")
+    if orig_check is not None:
+        conv.check_NP24 = w_check
+        wrapped_names.append("check_NP24")
 
     o_close, o_comp, o_unlink = spikeglx.Reader.close, spikeglx.Reader.compress_file, pathlib.Path.unlink
 
     def w_close(self):
-        if state["in_check"] and self is not conv.sr and state["closes"] == 0:
+        if state["in_check"] and self is not the_sr() and state["closes"] == 0:
             state["closes"] += 1
             point("check_closing")
         return o_close(self)
@@ -344,7 +440,7 @@ def instrumented(world, conv, steps, fail_at):
     def w_comp(self, *a, **k):
         # compress_file = temporary file, chunks, header, check, rename (spec/sys/System.tla refines the converter's atomic
         # CompressFile step into these): entry and first chunk are stuttering points, the rename is the step itself
-        state["comp_label"] = "compress_orig" if self is conv.sr else "comp"
+        state["comp_label"] = "compress_orig" if self is the_sr() else "comp"
         state["chunk_seen"] = False
         point("comp_begin")
         k.setdefault("chunk_duration", 0.02)
@@ -384,12 +480,16 @@ def instrumented(world, conv, steps, fail_at):
         # a new row range read from the original = the next window of the conversion (or of the verification pass): the generic
         # stand-in for the per-window point. Points *inside* the preparation of the shank folders are not generated: the
         # quantifier of the property interrupts at windows, metadata writing, verification and compression.
-        if self is conv.sr:
-            rows = item[0] if isinstance(item, tuple) else item
-            key = (getattr(rows, "start", rows), getattr(rows, "stop", None), state["in_check"])
-            if key != state.get("last_rows"):
-                state["last_rows"] = key
-                point("io_read")
+        if self is the_sr():
+            state["reads"] += 1
+            if state["reads"] > MAXREADS:
+                raise Runaway(f"process() read {state['reads']} row ranges from the original without coming to an end")
+            if generic:
+                rows = item[0] if isinstance(item, tuple) else item
+                key = (_text(getattr(rows, "start", rows)), _text(getattr(rows, "stop", None)), state["in_check"])
+                if key != state.get("last_rows"):
+                    state["last_rows"] = key
+                    point("io_read")
         return o_getitem(self, item)
 
     def w_wmd(md, md_file):
@@ -397,8 +497,8 @@ def instrumented(world, conv, steps, fail_at):
             point("io_meta")
         return o_wmd(md, md_file)
 
+    spikeglx.Reader.__getitem__ = w_getitem       # always: it also bounds the reads of a run that does not end
     if generic:
-        spikeglx.Reader.__getitem__ = w_getitem
         spikeglx.write_meta_data = w_wmd
     spikeglx.Reader.close = w_close
     spikeglx.Reader.compress_file = w_comp
@@ -410,7 +510,7 @@ def instrumented(world, conv, steps, fail_at):
     finally:
         if generic:
             spikeglx.write_meta_data = o_wmd
-            spikeglx.Reader.__getitem__ = o_getitem
+        spikeglx.Reader.__getitem__ = o_getitem
         spikeglx.Reader.close = o_close
         spikeglx.Reader.compress_file = o_comp
         pathlib.Path.unlink = o_unlink
@@ -432,7 +532,7 @@ def construct(world, o):
     f = world.hand(o.get("hand"))
     if o["chk"] != o["cmp"]:
         f = str(f)          # the file name as a string (half of the option vectors), else as a Path
-    conv = neuropixel.NP2Converter(f, post_check=o["chk"], compress=o["cmp"], delete_original=o["del"])
+    conv = lib("NP2Converter()", neuropixel.NP2Converter, f, post_check=o["chk"], compress=o["cmp"], delete_original=o["del"])
     init_params(world, conv, o)
     return conv
 
@@ -443,31 +543,66 @@ def init_params(world, conv, o):
         kw["extra"] = world.extra
     if o.get("sub"):
         kw["nshank"] = [world.shids[0]]
-    conv.init_params(**kw)
+    lib("init_params()", lambda: conv.init_params(**kw))
 
 
-def one_process(world, o, fail_at, steps, conv=None, mode=None):
+@contextlib.contextmanager
+def time_limit(seconds):
+    """a process() call that does not return is stopped (Runaway raised into it; the run ends 'raised'): only from the main
+    thread, where the check runs"""
+    if threading.current_thread() is not threading.main_thread():
+        yield
+        return
+
+    def on_alarm(signum, frame):
+        RUNAWAYS["alarm"] += 1
+        raise Runaway(f"process() did not return within {seconds} s")
+    old = signal.signal(signal.SIGALRM, on_alarm)
+    signal.setitimer(signal.ITIMER_REAL, seconds)
+    try:
+        yield
+    finally:
+        signal.setitimer(signal.ITIMER_REAL, 0)
+        signal.signal(signal.SIGALRM, old)
+
+
+def one_process(world, o, fail_at, steps, conv=None, mode=None, ctor_err=None):
     """one run by a fresh converter or, with `conv`: mode True = by the same object again, "reinit" = by the same object after
     another init_params (the run's `part` / `sub`; check_completed starts anew: a fresh run for the model), "early" = by an
     object constructed earlier in the history. Appends records; returns (status string, converter), status None if fail_at is
     beyond the last step of this run"""
     reuse = conv is not None and mode not in ("early", "reinit")
-    if conv is None:
-        conv = construct(world, o)
-    elif mode == "reinit":
-        init_params(world, conv, o)
-    o = dict(o, cb=Path(conv.ap_file).suffix == ".cbin", sub=bool(o.get("sub")))
+    handed = world.hand(o.get("hand"))
+    try:
+        if isinstance(ctor_err, LibRaised):
+            raise ctor_err
+        if conv is None:
+            conv = construct(world, o)
+        elif mode == "reinit":
+            init_params(world, conv, o)
+    except LibRaised as e:
+        # the constructor / init_params of this run raised: the run is over before process() was entered, status 'raised'
+        if fail_at is not None:
+            return None, conv           # no interruption point was reached
+        fs = world.project()
+        o = dict(o, cb=(ap_path(conv, handed) if conv is not None else handed).suffix == ".cbin", sub=bool(o.get("sub")))
+        steps.append({"pt": "begin", "fs": fs, "cd": False, "opts": dict(o), "status": "none", "reuse": False})
+        steps.append({"pt": "raise", "fs": fs, "cd": False, "vr": False, "exc": str(e)})
+        steps.append({"pt": "end", "fs": world.project(), "cd": False, "vr": False, "status": "raised"})
+        return "raised", (conv if mode == "reinit" else None)
+    o = dict(o, cb=ap_path(conv, handed).suffix == ".cbin", sub=bool(o.get("sub")))
     if mode == "reinit":      # the options given to the constructor belong to the object
-        o.update(chk=bool(conv.post_check), cmp=bool(conv.compress), **{"del": bool(conv.delete_original)})
-    steps.append({"pt": "begin", "fs": world.project(), "cd": bool(conv.check_completed) if reuse else False, "opts": dict(o),
+        o.update(chk=obs_bool(conv, "post_check"), cmp=obs_bool(conv, "compress"), **{"del": obs_bool(conv, "delete_original")})
+    steps.append({"pt": "begin", "fs": world.project(), "cd": cdone(conv) if reuse else False, "opts": dict(o),
                   "status": "none", "reuse": reuse})
     n0 = len(steps)
     status = None
     fired = False
     with instrumented(world, conv, steps, fail_at):
         try:
-            st = conv.process(overwrite=o["ow"])
-            status = {1: "1", 0: "0", -1: "m1"}.get(st, f"other:{st}")
+            with time_limit(RUN_SECONDS):
+                st = conv.process(overwrite=o["ow"])
+            status = status_of(st)
         except Injected:
             status = "crashed"
             fired = True
@@ -478,8 +613,8 @@ def one_process(world, o, fail_at, steps, conv=None, mode=None):
                 status = "refused"
             else:
                 status = "raised"
-                steps.append({"pt": "raise", "fs": world.project(), "cd": bool(conv.check_completed), "vr": vr(conv),
-                              "exc": f"{type(e).__name__}: {e}"[:160]})
+                steps.append({"pt": "raise", "fs": world.project(), "cd": cdone(conv), "vr": vr(conv),
+                              "exc": f"{type(e).__name__}: {_text(e, 140)}"})
         finally:
             close_files(conv)
     if fail_at == "D":
@@ -490,8 +625,8 @@ def one_process(world, o, fail_at, steps, conv=None, mode=None):
         # process() returned before any instrumented step (not an NP2 probe / already split): the model's Prepare
         steps.append({"pt": "prepare", "fs": steps[-1]["fs"], "cd": False, "vr": False})
     if status == "1":
-        steps.append({"pt": "return", "fs": world.project(), "cd": bool(conv.check_completed), "vr": vr(conv)})
-    steps.append({"pt": "end", "fs": world.project(), "cd": bool(conv.check_completed), "vr": vr(conv), "status": status})
+        steps.append({"pt": "return", "fs": world.project(), "cd": cdone(conv), "vr": vr(conv)})
+    steps.append({"pt": "end", "fs": world.project(), "cd": cdone(conv), "vr": vr(conv), "status": status})
     return status, conv
 
 
@@ -500,7 +635,7 @@ UNBOUND = set()     # instrumentation points that the code under test does not h
 
 
 def sr_closed(conv):
-    raw = getattr(conv.sr, "_raw", None)
+    raw = getattr(getattr(conv, "sr", None), "_raw", None)
     mm = getattr(raw, "_mmap", None)
     if mm is not None:
         return bool(mm.closed)
@@ -514,7 +649,10 @@ def vr(conv):
 
 def close_files(conv):
     """flush what the interrupted / finished run had open (the OS would do it at process exit)"""
-    for si in getattr(conv, "shank_info", {}).values():
+    info = getattr(conv, "shank_info", None)      # whatever the preparation step left there
+    for si in (list(info.values()) if isinstance(info, dict) else list(info) if isinstance(info, (list, tuple)) else []):
+        if not isinstance(si, dict):
+            continue
         for k in ("ap_open_file", "lf_open_file"):
             f = si.get(k)
             try:
@@ -557,7 +695,10 @@ def history(world, runs, setup=None):
     try:
         for i, run in enumerate(runs):
             if len(run) > 2 and run[2] == "early":
-                early[i] = construct(world, run[0])
+                try:
+                    early[i] = construct(world, run[0])
+                except LibRaised as e:      # the run this object was made for ends 'raised' when its turn comes
+                    early[i] = e
         for i, run in enumerate(runs):
             o, fa = run[0], run[1]
             mode = run[2] if len(run) > 2 and run[2] else None
@@ -565,7 +706,10 @@ def history(world, runs, setup=None):
             if same and conv is None:
                 break
             cur = conv if same else early.get(i)
-            f = Path(cur.ap_file) if cur is not None else world.hand(o.get("hand"))
+            err = None
+            if isinstance(cur, LibRaised):
+                err, cur = cur, None
+            f = ap_path(cur, world.hand(o.get("hand"))) if cur is not None else world.hand(o.get("hand"))
             if not world._complete(f, f.suffix == ".cbin"):
                 break                    # the file to hand over (or the one the object holds) is gone: no further run by it
             if same and sr_closed(conv):
@@ -584,13 +728,13 @@ def history(world, runs, setup=None):
                 break
             if not same and conv is not None:
                 close_all(conv)
-            st, conv = one_process(world, o, fa, steps, conv=cur, mode=mode)
+            st, conv = one_process(world, o, fa, steps, conv=cur, mode=mode, ctor_err=err)
             early.pop(i, None)
             if st is None:
                 return None
     finally:
         for c in [conv] + list(early.values()):
-            if c is not None:
+            if c is not None and not isinstance(c, LibRaised):
                 close_all(c)
     for s in steps:
         s.setdefault("opts", NOOPTS)
@@ -775,6 +919,11 @@ def execute(ctx, items):
     worlds = {}
     rng = np.random.default_rng(ctx.seed)
     for item in items:
+        if RUNAWAYS["alarm"] >= 3:
+            # process() calls keep running into the time limit: the histories executed so far are judged (each of those runs
+            # ended 'raised'), the rest of the plan would only repeat it for hours
+            OBSERVED.add(f"process() did not return within {RUN_SECONDS} s in {RUNAWAYS['alarm']} runs: the remaining histories were not executed")
+            break
         kind, form, runs = item[:3]
         setup = dict(item[3]) if len(item) > 3 and item[3] else {}
         extra = setup.get("extra", "")
@@ -840,6 +989,8 @@ def report(ctx, traces, verdicts):
 
 
 def report_unbound(ctx):
+    for o in sorted(ODD):
+        ctx.spec_drift(f"{o}: observed as false / as the file the run handed over")
     if UNBOUND:
         ctx.spec_drift(f"instrumentation points {sorted(UNBOUND)} do not exist in this code: those steps of spec/sys/NP2Convert.tla are not "
                        "bound; interruptions are injected at generic points (a new row range read from the original, metadata write, "
@@ -898,7 +1049,7 @@ def run(ctx):
     for t in traces[:1] + [x for x in traces if len(x["runs"]) > 1][:2]:
         ctx.sample({"history": describe(t), "records": [[s["pt"], "".join(f"{k}:{v} " for k, v in s["fs"].items() if v != "A"), s["status"]]
                                                        for s in t["steps"]][:40]})
-    selftest(ctx, traces, {v["index"] for v in verdicts if v["prop"] or not UNBOUND})
+    selftest(ctx, traces, {v["index"] for v in verdicts if v["prop"] or not UNBOUND}, {v["index"] for v in verdicts if v["prop"]})
     ctx.cov["rule"] = ("histories of 1-3 process() calls by fresh converter objects: every option vector x every interruption point "
                        "(single runs, enumerated until the run has no further step) + two/three-run histories (complete or "
                        "interrupted first run, any second run) + histories that start from a found state (original in two forms / next "
@@ -913,10 +1064,15 @@ def run(ctx):
                         "decompression; LF: shape and sync column)"]
 
 
-def selftest(ctx, traces, bad):
-    good = [i for i, t in enumerate(traces) if i not in bad and t["kind"] == "NP24" and len(t["runs"]) == 1
-            and t["form"] in ("bin", "cbin") and not t.get("setup") and not t["runs"][0][0].get("sub") and t["runs"][0][1] is None
-            and t["runs"][0][0]["del"] and t["runs"][0][0]["chk"] and t["steps"][-1]["status"] == "1"][:4]
+def selftest(ctx, traces, bad, violating=None):
+    cand = lambda excl: [i for i, t in enumerate(traces) if i not in excl and t["kind"] == "NP24" and len(t["runs"]) == 1     # noqa: E731
+                         and t["form"] in ("bin", "cbin") and not t.get("setup") and not t["runs"][0][0].get("sub") and t["runs"][0][1] is None
+                         and t["runs"][0][0]["del"] and t["runs"][0][0]["chk"] and t["steps"][-1]["status"] == "1"][:4]
+    good = cand(bad)
+    if len(good) < 2 and violating is not None:
+        # every such run of this code drifts from the implementation layer (and no property-layer clause is false on it): the
+        # property layer is evaluated on drifting traces as well, the corrupted copies have to be rejected all the same
+        good = cand(violating)
     if len(good) < 2:
         raise tlc.TLCError("selftest: no accepted delete_original traces")
     mut = []
@@ -951,3 +1107,4 @@ def replay(ctx, sc):
     runs = [tuple(r) for r in sc["runs"]]
     traces = execute(ctx, [(sc["kind"], sc["form"], runs, sc.get("setup") or {})])
     report(ctx, traces, validate(ctx, traces, "replay"))
+    report_unbound(ctx)
